@@ -4,6 +4,7 @@ import array
 from vf import dtwmon, gen, monitors, oracle
 from vf.oracle import inf
 from vf.runner import Plan
+from vf import ownsuite
 
 RULE = ("cases = calls of dtw.lb_keogh (use_c False/True), ed.distance, ed.distance_fast, ed_cc.distance(_ndim), "
         "dtw.ub_euclidean, dtw_ndim.ub_euclidean, dtw_cc.ub_euclidean(_ndim) and distance(only_ub=True) observed by "
@@ -15,7 +16,7 @@ RULE = ("cases = calls of dtw.lb_keogh (use_c False/True), ed.distance, ed.dista
         "and (bound > 0 or lengths differ).")
 ASSUME = ["bounds compared with tolerance 1e-9 relative (inequalities) and 16 ulp (engine equality)",
           "lb_keogh is only claimed against DTW without psi-relaxation (as stated)"]
-PLAN = Plan("C09", RULE, ASSUME,
+PLAN = Plan("C09", RULE, ASSUME, native=ownsuite.native_for("c09", "C09"),
             workers={"quick": [("plain", 16, "C09")], "thorough": [("plain", 13, "C09"), ("asan", 3, "C09")]},
             deciding=("lb_checks", "ub_checks", "engine_bound_comparisons", "only_ub_checks"),
             crash_is_violation=True)
